@@ -441,7 +441,22 @@ func c03units(tier string) []mc.Unit {
 		} else {
 			c3same(x, back, func(clause, exp, got string) { r.Failf(clause, "Write/Read via file", nil, exp, got) })
 		}
-		r.Eval(1)
+		// writing a shorter record over a longer one at the same path
+		long := x
+		long.Sequence = gbSeq(900, 4)
+		long.Meta.Locus.SequenceLength = "900"
+		long.Meta.Definition = c3text(400)
+		if pn := catch(func() { genbank.Write(long, p); genbank.Write(x, p); back = genbank.Read(p) }); pn != "" {
+			r.Failf("no-panic", "Write long, Write short to the same path, Read", nil, "a record", pn)
+		} else {
+			c3same(x, back, func(clause, exp, got string) {
+				r.Failf(clause, "Write of a long record, then Write of a short record to the same path, then Read", nil, exp, got)
+			})
+			if b, err := os.ReadFile(p); err == nil && string(b) != string(genbank.Build(x)) {
+				r.Failf("write-file-is-build-text", "Write of a short record over a long one", nil, fmt.Sprint(len(genbank.Build(x)), " bytes"), fmt.Sprint(len(b), " bytes"))
+			}
+		}
+		r.Eval(2)
 	}})
 	return us
 }
